@@ -1,0 +1,24 @@
+//go:build verif
+
+// Verification hooks for property C10 (read-only): compiled only with -tags verif.
+
+package scramblesuit
+
+import "net"
+
+// VerifC10Buffered reports the number of bytes the connection currently holds in its
+// receive buffers (receiveBuffer + receiveDecodedBuffer).  ok is false when c is not a
+// ScrambleSuit connection.  Must only be called while no Read is in progress.
+func VerifC10Buffered(c net.Conn) (n int, ok bool) {
+	raw, dec, ok := VerifC10BufferedParts(c)
+	return raw + dec, ok
+}
+
+// VerifC10BufferedParts is VerifC10Buffered with the two buffers reported separately.
+func VerifC10BufferedParts(c net.Conn) (raw, decoded int, ok bool) {
+	sc, ok := c.(*ssConn)
+	if !ok {
+		return 0, 0, false
+	}
+	return sc.receiveBuffer.Len(), sc.receiveDecodedBuffer.Len(), true
+}
